@@ -84,7 +84,7 @@ def run_numeric(ck, sc, tier, want):
     ck.cov["distinct_nontrivial"] += per_cfg.get("ref/real8", 0)
     ck.cov["traces_validated_against_impl"] += nev
     ck.part("configurations", events_per_configuration=per_cfg, inconclusive_disagreements=inconclusive,
-            thresholds="double: close <= 2^16 units of 2^-53 of the larger component (7e-12 normwise), far > 2^-20; float: close <= 2^-18, far > 2^-14; between: inconclusive (reported, not a violation)")
+            thresholds="normwise, relative to the larger component. double: close <= 32 eps, far (violation) > 512 eps; float: close <= 16 ulps, far > 256 ulps; between: inconclusive (reported, not a violation). Calibration: fallbacks differ from the C library by at most 6 eps on the whole grid.")
     with open(files[0]) as fh:
         ck.sample(json.loads(fh.readline()))
     return per_cfg
